@@ -14,6 +14,7 @@ import SharkVerif.Lemmas.LinSolveChol
 import SharkVerif.Lemmas.LinSolveLU
 import SharkVerif.Lemmas.LinSolveUnique
 import SharkVerif.Lemmas.LinSolveLUSolve
+import SharkVerif.Lemmas.LinSolveUpdate
 namespace SharkVerif.C02
 open SharkVerif.LinSolve
 
@@ -417,5 +418,208 @@ theorem solve_lu_correct (n : Nat) (A : Mat) (b : Vec) (h : (getrf n A).fail = f
   unfold mulVec at this ⊢
   simp only [hpb, hσ] at this
   exact this
+
+/-- **`solve(A, b, indefinite_full_rank(), right)`** (`pivoting_lu_decomposition::solve(b, right)`:
+`trsv<upper,right>`, `trsv<unit_lower,right>`, `swap_rows_inverted(P, b)`): for every size and every matrix
+on which `getrf` does not throw, the returned vector satisfies `x A = b` exactly. -/
+theorem solve_lu_right_correct (n : Nat) (A : Mat) (b : Vec) (h : (getrf n A).fail = false) :
+    ∀ j, j < n → vecMul n (fun k => vget (luSolveRightArr n (getrf n A) b) k) A j = b j := by
+  have side : LUSide n n (getrf n A) := getrf_side n A n (Nat.le_refl n) h
+  have hfac := getrf_correct n A h
+  set s := getrf n A with hs
+  set F : Mat := fun i j => mget s.M i j with hF
+  have hreg1 : triSingular ⟨false, true⟩ n F = false := by simp [triSingular]
+  have hreg2 : triSingular ⟨true, false⟩ n F = false :=
+    (regular_iff_not_singular _ n F).mp (fun _ j hj => side.2 j hj)
+  set y : Vec := trsv ⟨true, false⟩ false n F b with hy
+  set z : Vec := trsv ⟨false, true⟩ false n F y with hz
+  have hyU := trsv_correct_right ⟨true, false⟩ n F b hreg2
+  have hzL := trsv_correct_right ⟨false, true⟩ n F y hreg1
+  intro j hj
+  have hx : ∀ i, i < n → vget (luSolveRightArr n s b) i = z (permInvOf s.P n i) := by
+    intro i hi
+    unfold luSolveRightArr
+    rw [vget_vecOf]; simp only [hi, if_true]; rfl
+  unfold vecMul
+  -- re-index the sum by the recorded row permutation
+  rw [← sum_permOf s.P n n (Nat.le_refl n) side.1
+        (fun k => vget (luSolveRightArr n s b) k * A k j)]
+  have h1 : sum n (fun i => vget (luSolveRightArr n s b) (permOf s.P n i) * A (permOf s.P n i) j)
+      = sum n (fun i => sum n (fun c => z i * triPart ⟨false, true⟩ F i c * triPart ⟨true, false⟩ F c j)) := by
+    apply sum_congr; intro i hi
+    have hlt : permOf s.P n i < n := by
+      have := permOf_lt s.P n n (Nat.le_refl n) side.1 i hi; exact this
+    rw [hx _ hlt, permInvOf_permOf, ← hfac i j hi hj]
+    unfold mul; rw [← sum_mul_left]
+    apply sum_congr; intro c _; ring
+  have h2 : sum n (fun c => sum n (fun i => z i * triPart ⟨false, true⟩ F i c * triPart ⟨true, false⟩ F c j))
+      = sum n (fun c => y c * triPart ⟨true, false⟩ F c j) := by
+    apply sum_congr; intro c hc
+    rw [sum_mul_right]
+    have := hzL c hc; unfold vecMul at this; rw [this]
+  rw [h1, sum_comm, h2]
+  have := hyU j hj; unfold vecMul at this; exact this
+
+/-- **`solve(A, b, symm_pos_def(), right)`**: the vector solve of a symmetric system is side-independent
+(`cholesky_decomposition::solve(b, system_tag<Left>)` has one body); `x A = b` follows from `A x = b`. -/
+theorem solve_spd_right_correct (r : Rat → Rat) (n : Nat) (A : Mat) (b : Vec) (hr : SqrtSpec r n A)
+    (h0 : potrfInfo false r n A = 0) (hsym : ∀ i j, i < n → j < n → A i j = A j i) :
+    ∀ j, j < n → vecMul n (fun k => vget (solveSpdArr r n A b) k) A j = b j := by
+  intro j hj
+  rw [← solve_spd_correct r n A b hr h0 hsym j hj]
+  unfold vecMul mulVec
+  apply sum_congr; intro k hk
+  rw [hsym k j hk hj]; ring
+
+/-! ## lazily consumed solve expressions (`solve.hpp`: `matrix_row_optimizer`, `matrix_vector_prod_optimizer`) -/
+
+/-- `unit_vector(n, i)` -/
+def unitVec (i : Nat) : Vec := fun k => if k = i then 1 else 0
+
+/-- **`row(solve(A,B,tag,left), i) = prod(trans(B), solve(A, e_i, tag, right))`** — the rewrite of
+`matrix_row_optimizer<matrix_matrix_solve<…,left>>`, for any system matrix `T`: if `y T = e_i`
+(`y` is what the *right*-sided vector solve of the unit vector returns) and `T X = B`, then
+`Bᵀ y` is row `i` of `X`.  Every size, every number of right-hand sides. -/
+theorem row_of_left_solve (n m : Nat) (T X B : Mat) (y : Vec) (i : Nat) (hi : i < n)
+    (hy : ∀ l, l < n → vecMul n y T l = unitVec i l)
+    (hX : ∀ j k, j < n → k < m → mul n T X j k = B j k) :
+    ∀ k, k < m → mulVec n (transpose B) y k = X i k := by
+  intro k hk
+  unfold mulVec transpose
+  have h1 : sum n (fun j => B j k * y j) = sum n (fun j => sum n (fun l => y j * T j l * X l k)) := by
+    apply sum_congr; intro j hj
+    rw [← hX j k hj hk]; unfold mul
+    rw [← sum_mul_right]
+    apply sum_congr; intro l _; ring
+  have h2 : sum n (fun l => sum n (fun j => y j * T j l * X l k)) = sum n (fun l => unitVec i l * X l k) := by
+    apply sum_congr; intro l hl
+    rw [sum_mul_right, ← hy l hl]; rfl
+  rw [h1, sum_comm, h2, sum_single hi]
+  · simp [unitVec]
+  · intro l _ hne; simp [unitVec, hne]
+
+/-- instance for the triangular tags on the model: the lazily computed row (`trsv` from the right of
+the unit vector, then the product with `Bᵀ`) is row `i` of what `trsm` from the left returns. -/
+theorem lazy_row_left_trsm (t : Tri) (n m : Nat) (A B : Mat) (i : Nat) (hi : i < n)
+    (h : triSingular t n A = false) :
+    ∀ k, k < m → mulVec n (transpose B) (trsv t false n A (unitVec i)) k = trsm t true n m A B i k :=
+  row_of_left_solve n m (triPart t A) (trsm t true n m A B) B (trsv t false n A (unitVec i)) i hi
+    (fun l hl => trsv_correct_right t n A (unitVec i) h l hl)
+    (fun j k hj hk => trsm_correct_left t n m A B h j k hj hk)
+
+/-- the hypothesis `y T = e_i` (the *right*-sided unit-vector solve) cannot be replaced by `T y = e_i`
+(the left-sided one): witness `T = [[2,0],[1,2]]`, `B = I`, `X = T⁻¹`, `y = T⁻¹ e_0 = (1/2, -1/4)`;
+`(Bᵀ y)_1 = -1/4` but `X 0 1 = 0`. -/
+theorem row_of_left_solve_wrong_side_witness :
+    ∃ (T X B : Mat) (y : Vec),
+      (∀ l, l < 2 → mulVec 2 T y l = unitVec 0 l) ∧
+      (∀ j k, j < 2 → k < 2 → mul 2 T X j k = B j k) ∧
+      mulVec 2 (transpose B) y 1 ≠ X 0 1 := by
+  refine ⟨fun i j => if i = 1 ∧ j = 0 then 1 else if i = j then 2 else 0,
+          fun i j => if i = 1 ∧ j = 0 then -1/4 else if i = j then 1/2 else 0,
+          ident, fun k => if k = 0 then 1/2 else -1/4, ?_, ?_, ?_⟩
+  · intro l hl
+    have : l = 0 ∨ l = 1 := by omega
+    rcases this with rfl | rfl <;> norm_num [mulVec, sum, unitVec]
+  · intro j k hj hk
+    have hj' : j = 0 ∨ j = 1 := by omega
+    have hk' : k = 0 ∨ k = 1 := by omega
+    rcases hj' with rfl | rfl <;> rcases hk' with rfl | rfl <;> norm_num [mul, sum, ident]
+  · norm_num [mulVec, sum, transpose, ident]
+
+/-- **`prod(solve(A,B,tag,right), c) = prod(B, solve(A,c,tag,left))`**
+(`matrix_vector_prod_optimizer<matrix_matrix_solve<…,right>>`): if `X T = B` and `T y = c` then `X c = B y`. -/
+theorem prod_of_right_solve (n m : Nat) (T X B : Mat) (y c : Vec)
+    (hy : ∀ l, l < n → mulVec n T y l = c l)
+    (hX : ∀ k j, k < m → j < n → mul n X T k j = B k j) :
+    ∀ k, k < m → mulVec n X c k = mulVec n B y k := by
+  intro k hk
+  unfold mulVec
+  have h1 : sum n (fun l => X k l * c l) = sum n (fun l => sum n (fun j => X k l * T l j * y j)) := by
+    apply sum_congr; intro l hl
+    rw [← hy l hl]; unfold mulVec
+    rw [← sum_mul_left]
+    apply sum_congr; intro j _; ring
+  have h2 : sum n (fun j => sum n (fun l => X k l * T l j * y j)) = sum n (fun j => B k j * y j) := by
+    apply sum_congr; intro j hj
+    rw [sum_mul_right, ← hX k j hk hj]; rfl
+  rw [h1, sum_comm, h2]
+
+/-- **`prod(solve(A,B,tag,left), c) = solve(A, prod(B,c), tag, left)`**
+(`matrix_vector_prod_optimizer<matrix_matrix_solve<…,left>>`) for the triangular tags on the model. -/
+theorem prod_of_left_trsm (t : Tri) (n m : Nat) (A B : Mat) (c : Vec) (h : triSingular t n A = false) :
+    ∀ i, i < n → mulVec m (trsm t true n m A B) c i = trsv t true n A (mulVec m B c) i := by
+  apply trsv_unique t n A (mulVec m B c) _ h
+  intro i hi
+  unfold mulVec
+  have h1 : sum n (fun l => triPart t A i l * sum m (fun k => trsm t true n m A B l k * c k))
+      = sum n (fun l => sum m (fun k => triPart t A i l * trsm t true n m A B l k * c k)) := by
+    apply sum_congr; intro l _
+    rw [← sum_mul_left]
+    apply sum_congr; intro k _; ring
+  have h2 : sum m (fun k => sum n (fun l => triPart t A i l * trsm t true n m A B l k * c k))
+      = sum m (fun k => B i k * c k) := by
+    apply sum_congr; intro k hk
+    rw [sum_mul_right, ← trsm_correct_left t n m A B h i k hi hk]; rfl
+  rw [h1, sum_comm, h2]
+
+/-! ## rank-one update of a Cholesky factor -/
+
+/-- **rank-one update of a Cholesky factor** (`cholesky_decomposition::update(alpha, beta, v)`, `beta ≠ 0`):
+for every size, every lower-triangular factor `L` with non-zero diagonal, every update vector (zeros
+anywhere), every `alpha` with an exact non-zero root and every `beta`: if no exception is thrown and the
+root function is exact on the values it is applied to, the updated factor satisfies
+`L' L'ᵀ = alpha L Lᵀ + beta v vᵀ`. -/
+theorem cholUpdate_correct (r : Rat → Rat) (alpha beta : Rat) (n : Nat) (L : Arr2) (v : Vec)
+    (hb : beta ≠ 0) (ha : r alpha * r alpha = alpha) (ha0 : r alpha ≠ 0)
+    (hd : ∀ j, j < n → mget L j j ≠ 0)
+    (hup : ∀ i c, i < n → c < n → i < c → mget L i c = 0)
+    (hroot : ∀ t, t < n →
+      r (updX (r alpha) beta (updRun r (r alpha) beta n L v t) t) * r (updX (r alpha) beta (updRun r (r alpha) beta n L v t) t)
+        = updX (r alpha) beta (updRun r (r alpha) beta n L v t) t)
+    (hok : (cholUpdate r alpha beta n L v).fail = false) :
+    ∀ i k, i < n → k < n →
+      sum n (fun c => mget (cholUpdate r alpha beta n L v).L i c * mget (cholUpdate r alpha beta n L v).L k c)
+        = updTarget alpha beta n L v i k := by
+  have hrun : cholUpdate r alpha beta n L v = updRun r (r alpha) beta n L v n := by
+    unfold cholUpdate updRun updInit; simp [hb]
+  rw [hrun] at hok ⊢
+  have inv := updInv_run r (r alpha) alpha beta n L v ha ha0 hd hup hroot n (Nat.le_refl n) hok
+  intro i k hi hk
+  rw [← inv.main i k hi hk]
+  have hwi : wHat n (updRun r (r alpha) beta n L v n) i = 0 := by unfold wHat; simp; intro h; omega
+  rw [hwi]
+  have : sum n (fun c => if c < n then mget (updRun r (r alpha) beta n L v n).L i c * mget (updRun r (r alpha) beta n L v n).L k c
+        else alpha * (mget L i c * mget L k c))
+      = sum n (fun c => mget (updRun r (r alpha) beta n L v n).L i c * mget (updRun r (r alpha) beta n L v n).L k c) :=
+    sum_congr fun c hc => by simp [hc]
+  rw [this]; ring
+
+/-- `beta == 0`: the factor is scaled by `sqrt(alpha)`. -/
+theorem cholUpdate_scale_correct (r : Rat → Rat) (alpha : Rat) (n : Nat) (L : Arr2) (v : Vec)
+    (ha : r alpha * r alpha = alpha) :
+    ∀ i k, i < n → k < n →
+      sum n (fun c => mget (cholUpdate r alpha 0 n L v).L i c * mget (cholUpdate r alpha 0 n L v).L k c)
+        = updTarget alpha 0 n L v i k := by
+  intro i k hi hk
+  unfold cholUpdate updTarget
+  simp only [if_true]
+  have : sum n (fun c => mget (matOf n n fun i j => r alpha * mget L i j) i c * mget (matOf n n fun i j => r alpha * mget L i j) k c)
+      = sum n (fun c => alpha * (mget L i c * mget L k c)) := by
+    apply sum_congr; intro c hc
+    rw [mget_matOf, mget_matOf]; simp only [hi, hk, hc, and_self, if_true]
+    have e : r alpha * mget L i c * (r alpha * mget L k c) = r alpha * r alpha * (mget L i c * mget L k c) := by ring
+    rw [e, ha]
+  rw [this, sum_mul_left]; ring
+
+/-- non-vacuity: `n = 1`, `L = (1)`, `alpha = 1`, `beta = 3`, `v = (1)`: the value rooted is `4`, no exception,
+and the root function below is exact on it -/
+def rEx : Rat → Rat := fun x => if x = 4 then 2 else if x = 1 then 1 else 0
+
+example : (cholUpdate rEx 1 3 1 #[#[1]] (fun _ => 1)).fail = false := by
+  norm_num [cholUpdate, iter, updStep, mget, vget, vecOf, rEx, Array.getD]
+
+example : updX (rEx 1) 3 (updRun rEx (rEx 1) 3 1 #[#[1]] (fun _ => 1) 0) 0 = 4 ∧ rEx 4 * rEx 4 = 4 := by
+  norm_num [updX, updRun, updInit, iter, mget, vget, vecOf, rEx, Array.getD]
 
 end SharkVerif.C02
